@@ -53,7 +53,7 @@ def _solver_for_copy(h):
     return s, pop, popE, fcalls, mon, cost
 
 
-@contract('C06/AbstractSolver.__deepcopy__', ['C06'], A + '.__deepcopy__', native=False)
+@contract('C06/AbstractSolver.__deepcopy__', ['C06', 'C04'], A + '.__deepcopy__', native=False)
 def deepcopy(h):
     """a deep copy carries every attribute, shares no mutable state with the original (advancing one cannot change the
     other), and is marked not-live so that it rebuilds its objective around its OWN counter at its next Step"""
@@ -78,7 +78,7 @@ def deepcopy(h):
     h.check('original-unchanged', 'same(s.population, pop) and seq_eq(pop[0], m0) and seq_eq(pop[1], m1) and same(s._fcalls, fcalls)', **e)
 
 
-@contract('C06/Step/state-dumped-at-STOP', ['C06'], A + '.Step', native=False)
+@contract('C06/Step/state-dumped-at-STOP', ['C06', 'C04'], A + '.Step', native=False)
 def stop_dump(h):
     """the restart file a solver writes when it stops (forced dump in Step) holds the solver exactly as Step leaves it:
     whatever Finalize() does to the solver (Powell's Finalize adds a step-monitor record; here an ABSTRACT Finalize that
